@@ -47,6 +47,7 @@ TARGETS = [
     ('utf8_measure_from_utf32', 'size_t (const char32_t *, size_t)'),
     ('utf16_measure_from_utf32', 'size_t (const char32_t *, size_t)'),
     ('utf8_measure_from_latin_1', 'size_t (const char *, size_t)'),
+    ('validate_utf8', '_ST_PRIVATE::conversion_error_t (const char *, size_t)'),
 ]
 # a translated function that returns a pointer returns it into the array of this parameter
 RET_BASE_PARAM = 0
@@ -151,6 +152,16 @@ class Translator:
             return self.ptr_expr(inner[0], env)
         if k == 'CXXNullPtrLiteralExpr' or (k == 'ImplicitCastExpr' and n.get('castKind') == 'NullToPointer'):
             return (None, '(-1)')
+        if k in ('CXXReinterpretCastExpr', 'CStyleCastExpr') and n.get('castKind') in ('BitCast', 'NoOp'):
+            # a view of a byte array through another character type of the same width
+            to = strip_quals(strip_quals((n.get('type') or {}).get('qualType', '')).rstrip('*').strip())
+            frm = strip_quals(strip_quals((inner[0].get('type') or {}).get('qualType', '')).rstrip('*').strip())
+            if to not in INT_TYPES or frm not in INT_TYPES or INT_TYPES[to][1] != 8 or INT_TYPES[frm][1] != 8:
+                raise Unsupported('pointer cast from %s to %s' % (frm, to))
+            base, idx = self.ptr_expr(inner[0], env)
+            if base is None or INT_TYPES[to] == INT_TYPES[frm]:
+                return (base, idx)
+            return ('(fun i_ => %s (%s i_))' % ('wraps 8' if INT_TYPES[to][0] else 'wrapu 8', base), idx)
         if k == 'DeclRefExpr':
             vid = (n.get('referencedDecl') or {}).get('id')
             if vid in self.ptr_base and vid in env:
@@ -436,7 +447,7 @@ class Translator:
     def always_returns(self, s):
         k = s.get('kind')
         inner = [c for c in (s.get('inner') or []) if isinstance(c, dict)]
-        if k == 'ReturnStmt':
+        if k in ('ReturnStmt', 'ContinueStmt'):
             return True
         if k == 'CompoundStmt':
             return any(self.always_returns(c) for c in inner)
@@ -561,6 +572,20 @@ class Translator:
             return self.stmts(inner + rest, env)
         if k == 'NullStmt':
             return self.stmts(rest, env)
+        if k == 'ContinueStmt':
+            if not self.loop_stack:
+                raise Unsupported('continue outside a loop')
+            inc, cont = self.loop_stack[-1]
+            return self.stmts(([inc] if inc is not None else []) + [cont], env)
+        if k == 'DoStmt':
+            cond = inner[1]
+            while cond.get('kind') in ('ImplicitCastExpr', 'ParenExpr'):
+                cond = cond['inner'][0]
+            if cond.get('kind') != 'CXXBoolLiteralExpr' or cond.get('value'):
+                raise Unsupported('do loop other than do { } while (false)')
+            if contains_kind(inner[0], ('ContinueStmt', 'BreakStmt')):
+                raise Unsupported('break / continue inside do { } while (false)')
+            return self.stmts([inner[0]] + rest, env)
         if k == '__continue__':
             return '(%s %s)' % (s['lname'], ' '.join(["fuel'"] + self.arrays + [env[i] for i in s['ids']]))
         if k == 'ReturnStmt':
@@ -573,12 +598,14 @@ class Translator:
                 raise Unsupported('while with a condition variable')
             if k == 'ForStmt' and (len(inner) != 5 or inner[0].get('kind') or inner[1].get('kind')):
                 raise Unsupported('for loop with an init statement or a condition variable')
+            inc_node = None
             if k == 'WhileStmt':
                 cond_node, body = inner[0], inner[1]
             else:
                 # for (; cond; inc) body  ==  while (cond) { body; inc; }   (no `continue` is supported anyway)
                 cond_node = inner[2] if inner[2].get('kind') else None
-                body = inner[4] if not inner[3].get('kind') else {'kind': 'CompoundStmt', 'inner': [inner[4], inner[3]]}
+                inc_node = inner[3] if inner[3].get('kind') else None
+                body = inner[4] if inc_node is None else {'kind': 'CompoundStmt', 'inner': [inner[4], inc_node]}
             self.loop_count += 1
             lname = 'src_%s_loop%d' % (self.cur_name, self.loop_count)
             ids = [i for i in env if not isinstance(i, tuple)]
@@ -591,14 +618,18 @@ class Translator:
             saved = self.fuel
             self.fuel = "fuel'"
             cont = {'kind': '__continue__', 'lname': lname, 'ids': ids}
+            self.loop_stack.append((inc_node, cont))
             if cond_node is not None:
                 cond, pend, binds = self.full_expr(cond_node, env2, allow_pending=True)
                 lets, env3 = self.apply_pending(pend, env2)
                 btext = self.stmts([body, cont], env3)
+                top = self.loop_stack.pop()
                 rtext = self.stmts(rest, env3)
+                self.loop_stack.append(top)
                 text = self.with_binds(binds, '(if z2b %s then %s%s else %s%s)' % (cond, lets, btext, lets, rtext))
             else:
                 text = self.stmts([body, cont], env2)
+            self.loop_stack.pop()
             self.fuel = saved
             self.loop_defs.append(
                 "Fixpoint %s (fuel : nat) %s {struct fuel} : option Z :=\n  match fuel with\n  | O => None\n  | S fuel' =>\n  %s\n  end."
@@ -636,6 +667,12 @@ class Translator:
                 t = self.stmts([then], env)
                 e = self.stmts([els] if els is not None else rest, env)
                 return self.with_binds(binds, '(if z2b %s then %s else %s)' % (cond, t, e))
+        if k == 'IfStmt' and contains_kind(s, ('ReturnStmt', 'ContinueStmt')):
+            # some path returns, some falls through: the rest of the block is translated in both branches
+            cond, _, binds = self.full_expr(inner[0], env)
+            t = self.stmts([inner[1]] + rest, env)
+            e = self.stmts(([inner[2]] if len(inner) > 2 else []) + rest, env)
+            return self.with_binds(binds, '(if z2b %s then %s else %s)' % (cond, t, e))
         if n_is_assign(s) and s.get('opcode') == '=' and self.is_ptr(inner[0]):
             lhs = inner[0]
             while lhs.get('kind') == 'ParenExpr':
@@ -717,7 +754,7 @@ class Translator:
         self.fields, self.field_order = {}, []
         self.ptr_base, self.var_names, self.arrays = {}, {}, []
         self.loop_defs, self.loop_count, self.cur_name, self.fuel, self.pending = [], 0, cname or name, 'fuel', None
-        self.binds, self.shortcircuit = None, 0
+        self.binds, self.shortcircuit, self.loop_stack = None, 0, []
         self.opt = self.fuelled((name, qt))
         for c in n.get('inner', []) or []:
             if c.get('kind') == 'ParmVarDecl':
@@ -765,6 +802,14 @@ def has_loop(n):
     if n.get('kind') in ('WhileStmt', 'ForStmt', 'DoStmt'):
         return True
     return any(has_loop(c) for c in (n.get('inner') or []))
+
+
+def contains_kind(n, kinds):
+    if not isinstance(n, dict):
+        return False
+    if n.get('kind') in kinds:
+        return True
+    return any(contains_kind(c, kinds) for c in (n.get('inner') or []))
 
 
 def n_is_assign(s):
